@@ -22,6 +22,28 @@ add("C12", "E1",
     "Trusted: the partition table mc/ref/regs.py (written from the architecture manuals).",
     "DESIGN.md §4 C12")
 
+add("C01", "E1",
+    "bounded-exhaustive kernel enumeration vs. Hall-condition reference model",
+    "All kernels up to length 2 (thorough: 3) over every instruction form of synthetic 3-port "
+    "models (three port-naming schemes, 1-3 micro-ops with equal/nested/overlapping/disjoint port "
+    "sets, alternative assignments, zero-throughput and non-instruction lines, load/store "
+    "multipliers) are run through the real add_semantics/assign_optimal_throughput/Frontend code at "
+    "the three stages uniform / optimised once / optimised twice and every instruction is compared "
+    "with the exact feasibility criterion (sign, support, sum, Hall's condition for every port subset) "
+    "and the totals with the column sums.",
+    "Trusted: mc/ref/ports.py (Hall criterion). Unbounded quantifier decided on the stated finite "
+    "family only; D1 (second pass, multi-micro-op forms) is a listed known finding.",
+    "DESIGN.md §4 C01")
+add("C02", "E1",
+    "complete enumeration of the property's 5355-kernel family vs. exact fractional optimum",
+    "The 5355-kernel family named by the property is enumerated completely in both tiers and the "
+    "bottleneck after the CLI's two balancing passes is compared with the exact optimum "
+    "max_S confined(S)/|S|; clauses (1) never worse than uniform and (2) never below the optimum by "
+    "more than one step are additionally decided for all kernels <=2 of the C01 families.",
+    "Trusted: exact optimum by Hall/max-flow duality (mc/ref/ports.py). The property's 'random "
+    "exploration' clause is replaced by enumerated families (sampling is a different technique).",
+    "DESIGN.md §4 C02")
+
 NOT_YET = {}
 
 def main():
